@@ -15,7 +15,6 @@
 package internal
 
 import (
-	"bytes"
 	"context"
 	"crypto/tls"
 	"crypto/x509"
@@ -195,13 +194,11 @@ func encodeConfig(config TLSConfig) tlsConfigEncoder {
 
 // hash returns the hash of the tls config.
 func (c tlsConfigEncoder) hash() string {
-	buff := bytes.Buffer{}
-	_, _ = buff.WriteString(fmt.Sprintf("%t", c.SkipVerifyPeerCert))
-	_, _ = buff.WriteString(c.TrustedCA)
-	_, _ = buff.WriteString(c.TrustedCAFile)
-	_, _ = buff.WriteString(c.TrustedCARefreshInterval)
+	// Hash the JSON encoding, which keeps the fields apart: concatenating the bare values made
+	// different configurations (e.g. file "/a" refreshed every "10s" and file "/a1" with "0s")
+	// collide on the same pooled TLS config.
 	hash := fnv.New64a()
-	_, _ = hash.Write(buff.Bytes())
+	_, _ = hash.Write([]byte(c.JSON()))
 	out := hash.Sum(make([]byte, 0, 15))
 	return hex.EncodeToString(out)
 }
